@@ -450,7 +450,11 @@ def main():
         "violations": len(violations),
     }
     os.makedirs(os.path.join(VERIF, "evidence"), exist_ok=True)
-    json.dump(ev, open(os.path.join(VERIF, "evidence", pid + ".json"), "w"), indent=1)
+    # a debugging run without the proof engine describes less than the registered check covers: it goes to
+    # build/, never to the committed evidence
+    evdir = os.path.join(BUILD, "evidence-debug") if args.no_proof else os.path.join(VERIF, "evidence")
+    os.makedirs(evdir, exist_ok=True)
+    json.dump(ev, open(os.path.join(evdir, pid + ".json"), "w"), indent=1)
 
     for (path, suffix) in violations:
         log(f"VIOLATION property={pid} replay={path}" + (f" {suffix}" if suffix else ""))
